@@ -155,6 +155,18 @@ def rules(M):
     R['name-x-ctx'] = (ast.Name(id='x', ctx=ast.Load()),
                        lambda n: isinstance(n, ast.Name) and n.id == 'x' and (not CTX[0] or isinstance(n.ctx, ast.Load)),
                        lambda n: ast.Subscript(value=n, slice=T(ast.Constant(value=0)), ctx=ast.Load(), _tmpl=True), '__FST_[0]', False)
+    # template material that itself matches the pattern and stands BEHIND the slot: with nested=True the search goes into the put
+    # template, substitutes inside the captured content and comes back to the template's own nodes - they must stay as written
+    R['binop->g-tail'] = (M.MBinOp(), lambda n: isinstance(n, ast.BinOp),
+                          lambda n: ast.Call(func=T(name('g')), args=[n, T(ast.BinOp(left=name('x'), op=ast.Mult(), right=name('y')))], keywords=[],
+                                             _tmpl=True), 'g(__FST_, x*y)', True)
+    R['call->wrap-tail'] = (M.MCall(func=M.M(fn=...)), lambda n: isinstance(n, ast.Call),
+                            lambda n: ast.Call(func=T(name('w')), args=[n.func, T(ast.Call(func=name('t'), args=[name('z')], keywords=[]))],
+                                               keywords=[ast.keyword(arg='k', value=T(ast.Call(func=name('u'), args=[], keywords=[])), _tmpl=True)],
+                                               _tmpl=True), 'w(__FST_fn, t(z), k=u())', False)
+    R['list->lists'] = (M.MList(elts=M.M(e=...)), lambda n: isinstance(n, ast.List) and isinstance(n.ctx, ast.Load),
+                        lambda n: ast.List(elts=[T(ast.List(elts=[name('p')], ctx=ast.Load()))] + list(n.elts) + [T(ast.List(elts=[], ctx=ast.Load()))],
+                                           ctx=ast.Load(), _tmpl=True), '[[p], __FST_e, []]', False)
     return R
 
 
@@ -369,7 +381,8 @@ def run_case(fst, M, pi, rname, st, res):
 
 RULE_NAMES = ['name->log', 'binop->f', 'binop-swap', 'call-unwrap', 'expr-identity', 'list-slice', 'dict-mid', 'if-swap', 'stmt-identity',
               'def->wrapper',
-              'call-args-tail', 'call-_args-tail', 'call-_args-init', 'genexp->list', 'genexp->or', 'name->par', 'name-x-ctx', 'args-identity', 'name->str', 'if->two-stmts', 'seq->as', 'value->or-as']
+              'call-args-tail', 'call-_args-tail', 'call-_args-init', 'genexp->list', 'genexp->or', 'name->par', 'name-x-ctx', 'args-identity', 'name->str', 'if->two-stmts', 'seq->as', 'value->or-as',
+              'binop->g-tail', 'call->wrap-tail', 'list->lists']
 
 
 def shards(tier):
